@@ -134,6 +134,128 @@ Section Link.
   End Ops.
 End Link.
 
+(* ---- the same, with the python_version / python_full_version pair (_merge_python_version_single_markers = vmerge_pv) ---- *)
+Definition pv_operand_okb (c : clause) : bool :=
+  let v := c_ver c in
+  (epoch v =? 0)%N && match pre v, post v, dev v with None, None, None => true | _, _, _ => false end
+  && let r0 := release v in
+     match c_op c with
+     | OpEqStar | OpNeStar => Nat.eqb (List.length r0) 1 || Nat.eqb (List.length r0) 2
+     | OpCompat => Nat.eqb (List.length r0) 2
+     | _ => Nat.eqb (List.length (strip_to2 (List.length r0) r0)) 1 || Nat.eqb (List.length (strip_to2 (List.length r0) r0)) 2
+     end.
+Lemma pv_operand_okb_ok c : pv_operand_okb c = true -> pv_operand_ok c.
+Proof.
+  unfold pv_operand_okb, pv_operand_ok. intros H. apply andb_prop in H as [H1 H3]. apply andb_prop in H1 as [H1 H2].
+  split.
+  - destruct (c_ver c) as [e r p po d]. cbn in *. apply N.eqb_eq in H1. subst e.
+    destruct p; [discriminate|]. destruct po; [discriminate|]. destruct d; [discriminate|]. reflexivity.
+  - cbv zeta in H3 |- *. destruct (c_op c);
+      try (apply orb_prop in H3 as [H3|H3]; apply PeanoNat.Nat.eqb_eq in H3; [left | right]; exact H3);
+      apply PeanoNat.Nat.eqb_eq in H3; exact H3.
+Qed.
+
+Section LinkPair.
+  Variable tok : Marker.atom -> option clause.
+  Variable untok : str -> clause -> Marker.atom.
+  Variable vn : str -> vname.
+  Variable ver : Marker.menv -> str -> version.
+  Hypothesis untok_name : forall n c, Marker.a_name (untok n c) = n.
+  Hypothesis tok_untok : forall n c, tok (untok n c) = Some c.
+  Let PVn := of_string "python_version".
+  Let PFVn := of_string "python_full_version".
+
+  (* additionally: the two interpreter variables are consistent, python_version = X.Y and python_full_version = X.Y.Z *)
+  Definition good_env_pv (e : Marker.menv) : Prop :=
+    good_env tok ver e /\ exists X Y Z, ver e PVn = pvv X Y /\ ver e PFVn = pfv X Y Z.
+
+  Definition merged_safe_pv (k : bool) (c_pv c_full : clause) : bool :=
+    match normalize_pv c_pv, get_specifier c_full with
+    | Ret ns, Ret sf => match (if k then spec_and ns sf else spec_or ns sf) with Ret rs => forallb tilde_safeb (ranges_of rs) | _ => false end
+    | _, _ => false
+    end.
+
+  (* a: the python_version atom, b: the python_full_version atom *)
+  Definition pair_merge (k : bool) (a b : Marker.atom) : option Marker.marker :=
+    match tok a, tok b with
+    | Some c_pv, Some c_full =>
+        if pv_operand_okb c_pv && wf_clauseb c_full && merged_safe_pv k c_pv c_full then
+          match vmerge_pv k c_pv c_full with
+          | Ret VMFirst => Some (Marker.MAtom a)
+          | Ret VMAny => Some Marker.MAny
+          | Ret VMEmpty => Some Marker.MEmpty
+          | Ret (VMAtom c) => Some (Marker.MAtom (untok PFVn c))
+          | _ => None
+          end
+        else None
+    | _, _ => None
+    end.
+
+  Definition vmerge_link2 (k : bool) (a b : Marker.atom) : option Marker.marker :=
+    if str_eqb (Marker.a_name a) PVn && str_eqb (Marker.a_name b) PFVn then pair_merge k a b
+    else if str_eqb (Marker.a_name a) PFVn && str_eqb (Marker.a_name b) PVn then pair_merge k b a
+    else vmerge_link tok untok vn k a b.
+
+  Lemma vl_pv : Marker.version_like PVn = true. Proof. reflexivity. Qed.
+  Lemma vl_pfv : Marker.version_like PFVn = true. Proof. reflexivity. Qed.
+
+  Lemma pair_merge_sound k a b r : Marker.a_name a = PVn -> Marker.a_name b = PFVn -> pair_merge k a b = Some r ->
+    MarkerSingle.wf r = true /\ forall e, good_env_pv e -> Marker.meval e r = bopb k (Marker.atom_eval e a) (Marker.atom_eval e b).
+  Proof.
+    intros Na Nb H. unfold pair_merge in H.
+    destruct (tok a) as [c_pv|] eqn:Ta; [|discriminate H]. destruct (tok b) as [c_full|] eqn:Tb; [|discriminate H].
+    destruct (pv_operand_okb c_pv) eqn:Ok; [|discriminate H]. destruct (wf_clauseb c_full) eqn:Wf; [|discriminate H]. cbn [andb] in H.
+    destruct (merged_safe_pv k c_pv c_full) eqn:Sf; [|discriminate H].
+    destruct (vmerge_pv k c_pv c_full) as [res| |] eqn:Ev; try discriminate H.
+    assert (Side : forall ns sf rs, normalize_pv c_pv = Ret ns -> get_specifier c_full = Ret sf ->
+              (if k then spec_and ns sf else spec_or ns sf) = Ret rs -> Forall tilde_safe (ranges_of rs)).
+    { intros ns sf rs E1 E2 Er. unfold merged_safe_pv in Sf. rewrite E1, E2, Er in Sf. exact (forallb_tilde_safe _ Sf). }
+    pose proof (vmerge_pv_sound k c_pv c_full res (pv_operand_okb_ok _ Ok) (wf_clauseb_ok _ Wf) Ev Side) as Sound.
+    assert (VLa : Marker.version_like (Marker.a_name a) = true) by (rewrite Na; exact vl_pv).
+    assert (VLb : Marker.version_like (Marker.a_name b) = true) by (rewrite Nb; exact vl_pfv).
+    assert (Evs : forall e, good_env_pv e -> exists X Y Z,
+              Marker.atom_eval e a = clause_sem c_pv (pvv X Y) /\ Marker.atom_eval e b = clause_sem c_full (pfv X Y Z) /\ ver e PFVn = pfv X Y Z).
+    { intros e [G (X & Y & Z & E1 & E2)]. exists X, Y, Z. unfold Marker.atom_eval. rewrite VLa, VLb.
+      destruct (G a c_pv VLa Ta) as [_ Ea]. destruct (G b c_full VLb Tb) as [_ Eb]. rewrite Ea, Eb, Na, Nb, E1, E2. auto. }
+    destruct res as [| | | | |c]; try discriminate H; injection H as <-.
+    - split; [cbn [MarkerSingle.wf]; unfold MarkerSingle.ok_atom; rewrite VLa; reflexivity|]. intros e G. destruct (Evs e G) as (X & Y & Z & Ea & Eb & _).
+      cbn [Marker.meval]. rewrite Eb, Ea. exact (Sound X Y Z).
+    - split; [reflexivity|]. intros e G. destruct (Evs e G) as (X & Y & Z & Ea & Eb & _). cbn [Marker.meval]. rewrite Eb, Ea. symmetry. exact (Sound X Y Z).
+    - split; [reflexivity|]. intros e G. destruct (Evs e G) as (X & Y & Z & Ea & Eb & _). cbn [Marker.meval]. rewrite Eb, Ea. symmetry. exact (Sound X Y Z).
+    - assert (VLu : Marker.version_like (Marker.a_name (untok PFVn c)) = true) by (rewrite untok_name; exact vl_pfv).
+      split; [cbn [MarkerSingle.wf]; unfold MarkerSingle.ok_atom; rewrite VLu; reflexivity|]. intros e G. destruct (Evs e G) as (X & Y & Z & Ea & Eb & Ev2).
+      assert (Hn : Marker.atom_eval e (untok PFVn c) = Marker.vatom e (untok PFVn c)) by (unfold Marker.atom_eval; rewrite VLu; reflexivity).
+      cbn [Marker.meval]. rewrite Hn. destruct G as [G _].
+      destruct (G (untok PFVn c) c VLu (tok_untok _ c)) as [_ Eu]. rewrite Eu, untok_name, Ev2, Eb, Ea. exact (Sound X Y Z).
+  Qed.
+
+  Theorem vmerge_link2_sound k a b r : vmerge_link2 k a b = Some r ->
+    MarkerSingle.wf r = true /\ forall e, good_env_pv e -> Marker.meval e r = MarkerSingle.bop k (Marker.atom_eval e a) (Marker.atom_eval e b).
+  Proof.
+    assert (Bop : forall x y, MarkerSingle.bop k x y = bopb k x y) by (intros; destruct k; reflexivity).
+    unfold vmerge_link2. intros H.
+    destruct (str_eqb_spec (Marker.a_name a) PVn) as [Na|Na]; cbn [andb] in H.
+    - destruct (str_eqb_spec (Marker.a_name b) PFVn) as [Nb|Nb].
+      + destruct (pair_merge_sound k a b r Na Nb H) as [W S]. split; [exact W|]. intros e G. rewrite Bop. exact (S e G).
+      + destruct (str_eqb_spec (Marker.a_name a) PFVn) as [Na'|_]; cbn [andb] in H.
+        * rewrite Na in Na'. discriminate Na'.
+        * destruct (vmerge_link_sound tok untok vn ver untok_name tok_untok k a b r H) as [W S]. split; [exact W|]. intros e [G _]. exact (S e G).
+    - destruct (str_eqb_spec (Marker.a_name a) PFVn) as [Na'|Na']; cbn [andb] in H.
+      + destruct (str_eqb_spec (Marker.a_name b) PVn) as [Nb|Nb].
+        * destruct (pair_merge_sound k b a r Nb Na' H) as [W S]. split; [exact W|]. intros e G. rewrite Bop, (S e G). destruct k; cbn; [apply andb_comm | apply orb_comm].
+        * destruct (vmerge_link_sound tok untok vn ver untok_name tok_untok k a b r H) as [W S]. split; [exact W|]. intros e [G _]. exact (S e G).
+      + destruct (vmerge_link_sound tok untok vn ver untok_name tok_untok k a b r H) as [W S]. split; [exact W|]. intros e [G _]. exact (S e G).
+  Qed.
+
+  Section Ops2.
+    Variable vcontains : Marker.atom -> str -> bool.
+    Variable perm : list Marker.marker -> list Marker.marker.
+    Hypothesis perm_perm : forall l, Permutation (perm l) l.
+    Theorem linked2_sound fuel : MarkerSound.P vmerge_link2 vcontains perm good_env_pv fuel.
+    Proof. exact (MarkerSound.all_sound vmerge_link2 vcontains perm good_env_pv vmerge_link2_sound perm_perm fuel). Qed.
+  End Ops2.
+End LinkPair.
+
 (* ---- the hypotheses are satisfiable: an instance with an injective serialisation of clauses as the "text" of the operand ----
    (packaging's real tokeniser is not modelled; any tok/untok pair with tok (untok n c) = Some c will do) *)
 Definition opc (o : sop) : N :=
@@ -203,4 +325,21 @@ Definition env0 : Marker.menv :=
 Example env0_good : good_env tok0 (fun _ _ => relver 0 [3; 9; 1]%N) env0.
 Proof.
   intros a c _ T. split; [apply final_relver|]. unfold env0. cbn [Marker.vatom]. rewrite T. reflexivity.
+Qed.
+
+(* python_version > 3.7  and  python_full_version >= 3.8.5  merge to  python_full_version >= 3.8.5 (a new atom);
+   python_version >= 3.8 or python_full_version >= 3.8.5 is the python_version atom *)
+Definition pv_atom (o : sop) (l : list N) : Marker.atom := untok0 (of_string "python_version") (mkClause o (relver 0 l)).
+Definition pfv_atom (o : sop) (l : list N) : Marker.atom := untok0 (of_string "python_full_version") (mkClause o (relver 0 l)).
+Example link2_runs :
+  vmerge_link2 tok0 untok0 vn0 true (pv_atom OpGt [3; 7]%N) (pfv_atom OpGe [3; 8; 5]%N) = Some (Marker.MAtom (pfv_atom OpGe [3; 8; 5]%N))
+  /\ vmerge_link2 tok0 untok0 vn0 false (pfv_atom OpGe [3; 8; 5]%N) (pv_atom OpGe [3; 8]%N) = Some (Marker.MAtom (pv_atom OpGe [3; 8]%N))
+  /\ vmerge_link2 tok0 untok0 vn0 true (pv_atom OpLt [3; 8]%N) (pfv_atom OpGe [3; 8; 5]%N) = Some Marker.MEmpty.
+Proof. split; [vm_compute; reflexivity|]. split; vm_compute; reflexivity. Qed.
+Example env0_good_pv : good_env_pv tok0 (fun _ n => if str_eqb n (of_string "python_version") then pvv 3 9 else pfv 3 9 1)
+  (Marker.mkMEnv (fun _ => []) [] (fun a => match tok0 a with Some c => clause_sem c (if str_eqb (Marker.a_name a) (of_string "python_version") then pvv 3 9 else pfv 3 9 1) | None => false end)).
+Proof.
+  split.
+  - intros a c _ T. split; [destruct (str_eqb _ _); apply final_relver|]. cbn [Marker.vatom]. rewrite T. reflexivity.
+  - exists 3%N, 9%N, 1%N. split; reflexivity.
 Qed.
